@@ -118,6 +118,7 @@ type Wire struct {
 	Faults     []Fault
 	Fired      []*InjectedErr // sentinels of fired fatal faults, in firing order
 	FiredOther int            // fired non-fatal faults
+	FiredList  []Fault        // every fault that fired, in order
 	FiltersOff bool
 	NoLoopback bool
 	nFaultID   int
@@ -161,6 +162,7 @@ func (w *Wire) fault(kind string, handle int, op string, k int) *Fault {
 }
 
 func (w *Wire) fire(f *Fault) error {
+	w.FiredList = append(w.FiredList, *f)
 	switch f.Class {
 	case "deadline":
 		w.FiredOther++
